@@ -23,24 +23,45 @@ def case(args):
                               sleep=rng.choice([None, "sleep 0.02", 'sleep 0.0$(( $(echo {i:a} | cksum | cut -c1-1) % 5 ))']))), "o")
     j = sp.s2s("s2s", up[0], up[1])
     sep = rng.choice([" ", ",", ":"])
-    sp.proc(t3.Proc("joiner", kind="cattok", ins=[("a", [(j, "substream")])], outs=[("o", "joined.txt")], join={"a": sep}))
+    two = rng.random() < 0.35
+    alts = []
+    if two:
+        # a second sub-stream reaches the same joined in-port: one task each, each with its own members; which of the two
+        # arrives first is not determined, so either pairing with the parameter values is legal
+        L2 = rng.choice([1, 2, buf + 1])
+        paths2 = ["n%d.txt" % k for k in range(L2)]
+        for p in paths2:
+            sp.files[p] = p + "\n"
+        s2 = sp.src("src2", paths2)
+        j2 = sp.s2s("s2s2", s2, "out")
+        import copy
+        sp_alt = copy.deepcopy(sp)
+        for spx, order in ((sp, [j, j2]), (sp_alt, [j2, j])):
+            spx.proc(t3.Proc("joiner", kind="cattok", ins=[("a", [(o, "substream") for o in order])], pars=[("q", ("V", ["x", "y"]))],
+                             outs=[("o", "{p:q}.joined.txt")], join={"a": sep}))
+        alts = [sp_alt]
+    else:
+        sp.proc(t3.Proc("joiner", kind="cattok", ins=[("a", [(j, "substream")])], outs=[("o", "joined.txt")], join={"a": sep}))
     def extra(sp_, model, impl, sc):
         problems = []
         if impl["rc"] != 0:
             return problems
         n = sum(1 for k in t3.started_keys(impl["trace"]) if k.startswith("joiner"))
-        if n != 1:
-            problems.append(("not-once", "the task with the joined in-port ran %d times for one sub-stream" % n))
-        v = impl["fs"].get("joined.txt.audit.json")
-        if v:
-            rec = json.loads(v[1])
-            members = [t for t in model["tasks"] if t["proc"] == "joiner"][0]["ins"][0][2]
-            missing = [m for m in members if m not in rec.get("Upstream", {})]
-            if missing:
-                problems.append(("upstream-missing", "sub-stream members not recorded as upstream of the joined task: %s" % missing[:3]))
+        if n != (2 if two else 1):
+            problems.append(("not-once", "the task with the joined in-port ran %d times for %d sub-stream(s)" % (n, 2 if two else 1)))
+        for t in model["tasks"]:
+            if t["proc"] != "joiner":
+                continue
+            v = impl["fs"].get(t["outs"][0][2] + ".audit.json")
+            if v:
+                rec = json.loads(v[1])
+                members = t["ins"][0][2]
+                missing = [m for m in members if m not in rec.get("Upstream", {})]
+                if missing:
+                    problems.append(("upstream-missing", "sub-stream members not recorded as upstream of the joined task: %s" % missing[:3]))
         return problems
     ys = (rng.randint(1, 10**6), 500) if rng.random() < 0.4 else None
-    r = t3.success_case(sp, yield_seed=ys, extra_check=extra)
+    r = t3.success_case(sp, yield_seed=ys, extra_check=extra, alts=alts)
     r["L"], r["sep"] = L, sep
     return r
 
